@@ -18,6 +18,7 @@ Mirrors, as they are (quirks included):
       (`tableSortedMetadata[index]`) and then filtered on `OrgId` and the time range.
   * pkg/segment/writer/unrotatedquery.go `FilterUnrotatedSegmentsInQuery` (l.553).
   * the time-range test is the generated kernel `Gen.TimeRange_CheckRangeOverLap`.
+  * pkg/utils/segutils.go `CreateStreamId` (l.71): the key of the open segment stores.
 
 The regular-expression engine (Go regexp = RE2 syntax, flags `syntax.Perl`) is modelled for a fragment that
 is larger than what the quoted source can contain (it was needed for the unquoted source and is kept: the
@@ -467,5 +468,48 @@ def Meta.deleteTable (m : Meta) (table : Name) (org : Org) : Meta :=
 /-- `FilterSegmentsByTime`: for every requested name, the table's list filtered on overlap and org -/
 def selectRotated (qlo qhi : Int) (names : List Name) (org : Org) (m : Meta) : List Seg :=
   names.flatMap (fun n => ((lookupT n m.byTable).getD []).filter (fun s => overlaps qlo qhi s && s.org = org))
+
+/-! ## Stream ids (the key of the OPEN segment stores, `writer.allSegStores`) -/
+
+def digitChar (d : Nat) : Char :=
+  match d with
+  | 0 => '0' | 1 => '1' | 2 => '2' | 3 => '3' | 4 => '4' | 5 => '5' | 6 => '6' | 7 => '7' | 8 => '8' | _ => '9'
+
+/-- `%d` of a natural number -/
+def decNat (n : Nat) : List Char :=
+  if n < 10 then [digitChar n] else decNat (n / 10) ++ [digitChar (n % 10)]
+termination_by n
+decreasing_by omega
+
+/-- `%v` of an int64 -/
+def decInt (i : Int) : List Char := if i < 0 then '-' :: decNat (-i).toNat else decNat i.toNat
+
+/-- `utils.CreateStreamId(indexName, orgId)` = `fmt.Sprintf("%d-%v-%v", shard, orgId, xxhash(indexName))`;
+the hash is a parameter, the shard is `rand.Intn(MAX_SHARDS)` -/
+def streamId (H : Name → Nat) (shard : Nat) (org : Org) (index : Name) : List Char :=
+  decNat shard ++ '-' :: (decInt org ++ '-' :: decNat (H index))
+
+/-- the PRE-IMAGE of a stream id (shard aside): the text that stays outside the hash, and the hashed string -/
+def streamPre (org : Org) (index : Name) : List Char × Name := (decInt org, index)
+
+/-- NOT the code: a pre-image that hashes the organisation TOGETHER with the index name
+(`hash(fmt.Sprintf("%v%v", orgId, indexName))`) — kept to document why the organisation must stay outside -/
+def streamPreConcat (org : Org) (index : Name) : List Char × Name := ([], decInt org ++ index)
+
+/-! ## End to end: what a search of an organisation over an index expression may return -/
+
+/-- an ingested record with its markers -/
+structure Rec where
+  id : Nat
+  org : Org
+  index : Name
+deriving Repr, DecidableEq
+
+/-- the records a search of `org` over `expr` returns: ingest registers the (org, index) pairs as tables
+(`AddAndGetRealIndexName`), the expression is expanded for the organisation, segments are selected on
+(table ∈ names, org) — no aliases, whole time range -/
+def visible (recs : List Rec) (org : Org) (expr : Name) : List Rec :=
+  let tables := recs.foldl (fun acc r => addTable r.org r.index acc) []
+  recs.filter (fun r => r.org = org && (expand expr org false tables []).contains r.index)
 
 end SigModel.Tenant
